@@ -79,7 +79,7 @@ Contract(SM, 'Stream.read_response', dict(S, response=TOpt(TObj('HTTPResponse'))
                              ('size-cap', 'bytes_read <= 32768 and bytes_read >= 0', {'C08'}),
                              ('lines-have-a-line-break', 'implies(len(header_lines) > 0, "\\n" in b"".join(header_lines))', {'C09'})]}},
     ensures=[('block-is-wire-bytes', '%s == %s' % (NDELTA, DELTA), {'C04'}),
-             ('ends-with-blank-line', 'endswith(%s, b"\\n\\r\\n") or endswith(%s, b"\\n\\n")' % (C, C), {'C08'}),
+             ('ends-with-blank-line', 'endswith(%s, b"\\n\\r\\n") or endswith(%s, b"\\n\\n")' % (C, C), {'C08', 'C04'}),
              ('parsed', 'result.status_code is not None', {'C08'})],
     raises={'NetworkError': [('only-when-cut-short', 'self._connection.eof or self._connection.failed', {'C08'})], 'ProtocolError': []},
     note='@close_stream_on_error: closes the connection and re-raises (transparent for the ghosts)')
